@@ -155,8 +155,189 @@ func stmtString(s ast.Stmt) string {
 	return sb.String()
 }
 
+// c06Roles identifies the values used inside one function by ROLE instead of
+// by the spelling of local names: parameters of the function are `$i`,
+// parameters of a function literal inside it are `cb$i`, and a local that has
+// one defining expression (possibly repeated identically) is replaced by that
+// expression (`#i` selects the i-th result of a multi-value definition);
+// locals with several different definitions (err, ok) render as `?`.
+type c06Roles struct {
+	params map[string]string
+	defs   map[string]string // local name -> rendered defining expression
+	multi  map[string]bool
+	raw    map[string]c06Def
+}
+
+type c06Def struct {
+	e   ast.Expr
+	idx int
+	typ string
+}
+
+func c06NewRoles(fd *ast.FuncDecl) *c06Roles {
+	r := &c06Roles{params: map[string]string{}, defs: map[string]string{}, multi: map[string]bool{},
+		raw: map[string]c06Def{}}
+	i := 0
+	for _, fl := range fd.Type.Params.List {
+		for _, n := range fl.Names {
+			r.params[n.Name] = fmt.Sprintf("$%d", i)
+			i++
+		}
+	}
+	var defsSeen = map[string][]c06Def{}
+	add := func(name string, d c06Def) {
+		if name == "_" {
+			return
+		}
+		defsSeen[name] = append(defsSeen[name], d)
+	}
+	ast.Inspect(fd.Body, func(n ast.Node) bool {
+		switch x := n.(type) {
+		case *ast.FuncLit:
+			j := 0
+			for _, fl := range x.Type.Params.List {
+				for _, nm := range fl.Names {
+					if nm.Name != "_" {
+						r.params[nm.Name] = fmt.Sprintf("cb$%d", j)
+					}
+					j++
+				}
+			}
+		case *ast.AssignStmt:
+			if len(x.Rhs) == 1 {
+				for k, l := range x.Lhs {
+					if id, ok := l.(*ast.Ident); ok {
+						idx := -1
+						if len(x.Lhs) > 1 {
+							idx = k
+						}
+						add(id.Name, c06Def{e: x.Rhs[0], idx: idx})
+					}
+				}
+			} else if len(x.Rhs) == len(x.Lhs) {
+				for k, l := range x.Lhs {
+					if id, ok := l.(*ast.Ident); ok {
+						add(id.Name, c06Def{e: x.Rhs[k], idx: -1})
+					}
+				}
+			}
+		case *ast.ValueSpec:
+			for k, nm := range x.Names {
+				switch {
+				case len(x.Values) == len(x.Names):
+					add(nm.Name, c06Def{e: x.Values[k], idx: -1})
+				case len(x.Values) == 0 && x.Type != nil:
+					add(nm.Name, c06Def{typ: exprString(x.Type), idx: -1})
+				}
+			}
+		case *ast.RangeStmt:
+			for _, l := range []ast.Expr{x.Key, x.Value} {
+				if id, ok := l.(*ast.Ident); ok && id != nil {
+					add(id.Name, c06Def{typ: "range", idx: -1})
+					add(id.Name, c06Def{typ: "range2", idx: -1})
+				}
+			}
+		}
+		return true
+	})
+	// a declaration without value followed by exactly one kind of
+	// assignment (var o T … o, err = f()) is defined by the assignment
+	for name, ds := range defsSeen {
+		var vals []c06Def
+		for _, d := range ds {
+			if d.e != nil {
+				vals = append(vals, d)
+			}
+		}
+		if len(vals) == 0 {
+			r.raw[name] = ds[0]
+			if len(ds) > 1 {
+				r.multi[name] = true
+			}
+			continue
+		}
+		r.raw[name] = vals[0]
+		first := exprString(vals[0].e) + fmt.Sprint(vals[0].idx)
+		for _, d := range vals[1:] {
+			if exprString(d.e)+fmt.Sprint(d.idx) != first {
+				r.multi[name] = true
+			}
+		}
+	}
+	return r
+}
+
+func (r *c06Roles) render(e ast.Expr, depth int) string {
+	switch x := e.(type) {
+	case *ast.Ident:
+		if p, ok := r.params[x.Name]; ok {
+			return p
+		}
+		if r.multi[x.Name] {
+			return "?"
+		}
+		if d, ok := r.raw[x.Name]; ok && depth < 8 {
+			if d.e == nil {
+				return "var:" + d.typ
+			}
+			s := "(" + r.render(d.e, depth+1) + ")"
+			if d.idx >= 0 {
+				s += fmt.Sprintf("#%d", d.idx)
+			}
+			return s
+		}
+		return x.Name
+	case *ast.SelectorExpr:
+		return r.render(x.X, depth) + "." + x.Sel.Name
+	case *ast.CallExpr:
+		var as []string
+		for _, a := range x.Args {
+			as = append(as, r.render(a, depth))
+		}
+		return r.render(x.Fun, depth) + "(" + strings.Join(as, ",") + ")"
+	case *ast.UnaryExpr:
+		return x.Op.String() + r.render(x.X, depth)
+	case *ast.TypeAssertExpr:
+		return r.render(x.X, depth) + ".(" + exprString(x.Type) + ")"
+	case *ast.SliceExpr:
+		return r.render(x.X, depth) + "[:]"
+	case *ast.ParenExpr:
+		return r.render(x.X, depth)
+	case *ast.StarExpr:
+		return "*" + r.render(x.X, depth)
+	}
+	return exprString(e)
+}
+
+// c06AbstractOrder replaces every rendered "result 0 of DeserializeOrder(…)"
+// by the token ORDER: the order decoded from the fixed-size encoding.
+func c06AbstractOrder(s string) string {
+	const open = "(DeserializeOrder("
+	for {
+		i := strings.Index(s, open)
+		if i < 0 {
+			return s
+		}
+		depth, j := 0, i
+		for ; j < len(s); j++ {
+			if s[j] == '(' {
+				depth++
+			} else if s[j] == ')' {
+				depth--
+				if depth == 0 {
+					break
+				}
+			}
+		}
+		if j >= len(s) || !strings.HasPrefix(s[j+1:], "#0") {
+			return s
+		}
+		s = s[:i] + "ORDER" + s[j+3:]
+	}
+}
+
 // callArgs returns, for every call of `callee` inside function `fn`, the
-// first `n` arguments as source text.
+// first `n` arguments identified by role (c06Roles).
 func callArgs(files []*ast.File, pkg, fn, callee string, n int) [][]string {
 	fd := findFunc(files, fn)
 	if fd == nil {
@@ -164,6 +345,7 @@ func callArgs(files []*ast.File, pkg, fn, callee string, n int) [][]string {
 		return nil
 	}
 	var res [][]string
+	roles := c06NewRoles(fd)
 	ast.Inspect(fd.Body, func(nd ast.Node) bool {
 		ce, ok := nd.(*ast.CallExpr)
 		if !ok {
@@ -172,7 +354,7 @@ func callArgs(files []*ast.File, pkg, fn, callee string, n int) [][]string {
 		if id, ok := ce.Fun.(*ast.Ident); ok && id.Name == callee && len(ce.Args) >= n {
 			var a []string
 			for i := 0; i < n; i++ {
-				a = append(a, exprString(ce.Args[i]))
+				a = append(a, roles.render(ce.Args[i], 0))
 			}
 			res = append(res, a)
 		}
@@ -265,6 +447,7 @@ func c06StoreCalls(files []*ast.File, fn string) [][]string {
 		return nil
 	}
 	var res [][]string
+	roles := c06NewRoles(fd)
 	ast.Inspect(fd.Body, func(n ast.Node) bool {
 		ce, ok := n.(*ast.CallExpr)
 		if !ok {
@@ -274,7 +457,14 @@ func c06StoreCalls(files []*ast.File, fn string) [][]string {
 		if !ok || !strings.HasPrefix(id.Name, "store") || !strings.HasSuffix(id.Name, "TX") {
 			return true
 		}
-		a := []string{id.Name, exprString(ce.Args[0]), exprString(ce.Args[len(ce.Args)-1])}
+		// destination bucket, then every value argument (the nonce is skipped)
+		var vals []string
+		for _, v := range ce.Args[1:] {
+			if rv := roles.render(v, 0); rv != "$2" && rv != "cb$0" {
+				vals = append(vals, c06AbstractOrder(rv))
+			}
+		}
+		a := []string{id.Name, c06AbstractOrder(roles.render(ce.Args[0], 0)), strings.Join(vals, " | ")}
 		res = append(res, a)
 		return true
 	})
@@ -293,6 +483,7 @@ func c06CallbackDecodes(files []*ast.File, fn string) []string {
 		return nil
 	}
 	var res []string
+	roles := c06NewRoles(fd)
 	ast.Inspect(fd.Body, func(n ast.Node) bool {
 		fl, ok := n.(*ast.FuncLit)
 		if !ok {
@@ -302,7 +493,7 @@ func c06CallbackDecodes(files []*ast.File, fn string) []string {
 			if ce, ok := m.(*ast.CallExpr); ok {
 				name := exprString(ce.Fun)
 				if strings.Contains(strings.ToLower(name), "deserialize") {
-					res = append(res, name+"("+exprString(ce.Args[len(ce.Args)-1])+")")
+					res = append(res, name+"("+c06AbstractOrder(roles.render(ce.Args[len(ce.Args)-1], 0))+")")
 				}
 			}
 			return true
